@@ -13,7 +13,9 @@ RULE = (
     "per program per operand kind), CSE (shared cores x wrappers, nested temporaries); each compiled with CSE on and "
     "off through formak.python.compile and evaluated on the full Cartesian dyadic grid (2 quick / 3 thorough values "
     "per symbol slot, all slots distinct) x dt values; one evaluation = one model() call compared output-by-name with "
-    "the reference interpreter. distinct = distinct definition records; non-trivial = >=2 input symbols and at least "
+    "the reference interpreter. In addition all OPS look-alike programs (incl. pairs that differ only in a -1 / -2 coefficient "
+    "or exponent) are compiled one after the other in ONE process, in both orders and both CSE settings, and each is checked "
+    "right after compiling and again after all were compiled. distinct = distinct definition records; non-trivial = >=2 input symbols and at least "
     "one grid point evaluated (not skipped as singular)."
 )
 ASSUMPTIONS = [
@@ -36,9 +38,66 @@ def cases(tier, seed):
         nsym = len(d["state"]) + len(d["control"])
         p = per if nsym <= 5 else 2
         yield {"def": d, "per_symbol": p, "seed": seed, "dts": [0.125, -0.25]}
+    # many look-alike models compiled one after the other in ONE process, in both orders: a compiled model must not depend
+    # on what was compiled before it, and must not be disturbed by what is compiled after it
+    ops = space.family_ops("thorough")
+    for order in ("fwd", "rev"):
+        for cse in (True, False):
+            yield {"kind": "sequence", "defs": ops if tier == "thorough" else ops[::2] + ops[-14:], "order": order, "cse": cse, "seed": seed}
+
+
+def eval_sequence(case):
+    defs = list(case["defs"])
+    if case["order"] == "rev":
+        defs.reverse()
+    fails, n = [], 0
+    compiled = []
+
+    def check(d, m, when):
+        nonlocal n
+        st, ca, ct = space.def_symbols(d)
+        cal = dict((k, v) for k, v in d["calmap"])
+        asts = dict((k, a) for k, a in d["model"])
+        for env in space.some_points(st + ct, 3, case["seed"], dts=(0.125, -0.25)):
+            full = dict(env)
+            full.update(cal)
+            try:
+                ref = {s: ref_eval(asts[s], full) for s in st}
+            except Singular:
+                continue
+            try:
+                r = m.model(env["dt"], m.State(**{s: env[s] for s in st}), m.Control(**{s: env[s] for s in ct}))
+            except Exception as e:
+                fails.append({"key": f"sequence-raises:{type(e).__name__}", "what": f"{d['name']} ({when}) raised {e!r}"[:300]})
+                return
+            n += 1
+            o = pyimpl.vec_by_name(r)
+            for s in st:
+                if not pyimpl.close(o[s], ref[s], REL):
+                    if not any(f["key"] == f"sequence-value:{when}" for f in fails):
+                        fails.append({"key": f"sequence-value:{when}", "what": f"{d['name']} compiled as #{len(compiled)} of a sequence "
+                                      f"({case['order']}, cse={case['cse']}): state '{s}' = {o[s]!r}, symbolic value {float(ref[s])!r} at {env} "
+                                      f"[checked {when}]"})
+                    return
+
+    for d in defs:
+        try:
+            m = pyimpl.py_model(d, {"cse": case["cse"]})
+        except Exception as e:
+            fails.append({"key": f"compile-refused:{type(e).__name__}", "what": f"{d['name']}: {e!r}"[:300]})
+            continue
+        compiled.append((d, m))
+        check(d, m, "right after compiling")
+    for d, m in compiled:
+        check(d, m, "after all were compiled")
+    return {"n": n, "fails": fails[:3], "sig": f"sequence:{case['order']}:{case['cse']}", "outcomes": ["evaluated", "sequence"],
+            "sample": {"kind": "sequence", "order": case["order"], "cse": case["cse"], "models_in_one_process": len(compiled),
+                       "first": defs[0]["name"], "last": defs[-1]["name"]}}
 
 
 def eval_case(case):
+    if case.get("kind") == "sequence":
+        return eval_sequence(case)
     d = case["def"]
     fails = []
     st, ca, ct = space.def_symbols(d)
@@ -125,4 +184,4 @@ def eval_case(case):
     }
 
 
-REQUIRED_OUTCOMES = ["evaluated"]
+REQUIRED_OUTCOMES = ["evaluated", "sequence"]
